@@ -4,8 +4,9 @@
     An INVOCATION leaves [step] only in a CALL step routed to a client callee
     (INVOCATIONs for the meta session are consumed inside the step).  A further
     chunk of a progressive call carries [progress] only.  A first chunk
-    carries the caller's identity exactly when the registration's flag
-    ([reg_disclose], fixed when the registration was created) is set, or the
+    carries the caller's identity exactly when THIS callee is in the
+    registration's [reg_disclose] (it asked with [disclose_caller] at its own
+    REGISTER and was allowed to), or the
     caller asked ([disclose_me]), the realm allows it and the callee's record
     (in the state before the step) announces caller_identification; the values
     are the caller's own. *)
@@ -74,7 +75,7 @@ Definition inv_first (r : realm) (x : N) (xs : session) (opts : dict) (y rid : N
   exists rg ys,
     nget (d_regs (r_dealer r)) rid = Some rg /\ In y (reg_callees rg) /\
     find_session (r_clients r) y = Some ys /\
-    let allowed := reg_disclose rg ||
+    let allowed := reg_discloses rg y ||
                    (opt_bool opts "disclose_me" && c_disclose (r_cfg r) && sess_feature ys "callee" f_caller_ident) in
     dget det "caller" = (if allowed then Some (vid x) else None) /\
     dget det "caller_authid" = (if allowed then dget (s_details xs) "authid" else None) /\
@@ -109,10 +110,10 @@ Proof.
     destruct m'; try discriminate Ic. clear Ic. cbn [handle].
     pose proof (call_c12 (r_cfg r) (lookup r) (r_now r) (r_dealer r) s req opts proc args kw oracle Wd LOK) as CF.
     destruct (call _ _ _ _ _ _ _ _ _ _ _) as [d o0|o0|d callee' o0] eqn:Ecall.
-    + cbn [snd]. intros Hin. exfalso. eapply No; [|exact Hin]. apply CF.
+    + cbn [snd]. intros Hin. exfalso. eapply No; [|exact Hin]. exact (proj2 CF).
     + pose proof (leave_noinv r (s_id s)) as L. destruct (leave r (s_id s)) as [r1 o1]. cbn [snd] in *.
-      intros Hin. exfalso. eapply No; [|exact Hin]. apply noinv_app; [apply CF|exact L].
-    + destruct CF as (_ & _ & (b0 & rid0 & det0 & Eo) & _).
+      intros Hin. exfalso. eapply No; [|exact Hin]. apply noinv_app; [exact (proj2 CF)|exact L].
+    + destruct CF as (_ & (b0 & rid0 & det0 & Eo) & _).
       destruct (N.eqb_spec (s_id callee') meta_id) as [Em|Em].
       * rewrite Eo, Em. intros Hin. exfalso. eapply No; [|exact Hin].
         destruct (run_meta_invocation_meta_qstep (update_session (r_set_dealer r d) callee') b0 rid0 det0 args kw oracle)
@@ -159,7 +160,7 @@ Corollary step_inv_only_if : forall r o,
         cget (d_bycall (r_dealer r)) (x, q) = None /\
         nget (d_regs (r_dealer r)) rid = Some rg /\ In y (reg_callees rg) /\
         find_session (r_clients r) y = Some ys /\ y <> meta_id /\
-        (reg_disclose rg = true \/
+        (reg_discloses rg y = true \/
          (opt_bool opts "disclose_me" = true /\ c_disclose (r_cfg r) = true /\
           sess_feature ys "callee" f_caller_ident = true)) /\
         dget det "caller" = Some (vid x) /\
@@ -171,7 +172,7 @@ Proof.
   destruct Kind as [(_ & ->)|(Hb & rg & ys & Hr & Hc & Fy & Rest)]; [discriminate Hk|].
   cbv zeta in Rest. destruct Rest as (D1 & D2 & D3).
   exists x, m, orc, xs, q, opts, proc, rg, ys.
-  destruct (reg_disclose rg || (opt_bool opts "disclose_me" && c_disclose (r_cfg r) && sess_feature ys "callee" f_caller_ident)) eqn:Al.
+  destruct (reg_discloses rg y || (opt_bool opts "disclose_me" && c_disclose (r_cfg r) && sess_feature ys "callee" f_caller_ident)) eqn:Al.
   - repeat (split; [assumption|]). split; [|repeat split; assumption].
     apply orb_true_iff in Al. destruct Al as [Al|Al]; [now left|right].
     apply andb_true_iff in Al. destruct Al as [Al A3]. apply andb_true_iff in Al. destruct Al as [A1 A2]. auto.
